@@ -200,6 +200,19 @@ impl World {
         Ok(id)
     }
 
+    /// `connect`, but a refused / failed connect is an observation, not a crash of the harness:
+    /// it is noted (and reported as a mismatch of the scenario) and a client id that is never
+    /// served is returned.
+    pub fn connect_x(&mut self, uds: bool, l: usize) -> u8 {
+        match self.connect(uds, l) {
+            Ok(id) => id,
+            Err(e) => {
+                CONNECT_FAILURES.lock().unwrap().push(format!("listener {l}: {e}"));
+                255
+            }
+        }
+    }
+
     /// Does the client get the "S" (its service call has started) within `within`?
     pub fn served(&mut self, id: u8, within: Duration) -> bool {
         self.clients.get_mut(&id).and_then(|c| c.read_byte(within)) == Some(b'S')
@@ -274,6 +287,8 @@ impl World {
     }
 }
 
+static CONNECT_FAILURES: std::sync::Mutex<Vec<String>> = std::sync::Mutex::new(Vec::new());
+
 pub struct E2eResult {
     pub name: &'static str,
     pub observations: Vec<(String, bool, bool)>, // (what, expected, observed)
@@ -295,11 +310,11 @@ pub fn backpressure(rt: RtKind, limit: usize, uds: bool) -> E2eResult {
     let mut o = vec![];
     let mut held = vec![];
     for _ in 0..limit {
-        let c = w.connect(uds, 0).unwrap();
+        let c = w.connect_x(uds, 0);
         obs(&mut o, &format!("connection {c} (within the limit) is served"), true, w.served(c, POS));
         held.push(c);
     }
-    let extra = w.connect(uds, 0).unwrap();
+    let extra = w.connect_x(uds, 0);
     obs(&mut o, "connection beyond the limit is served while the worker is saturated", false, w.served(extra, NEG));
     w.release(held[0]);
     obs(&mut o, "waiting connection is served after one connection finished", true, w.served(extra, POS));
@@ -318,7 +333,7 @@ pub fn round_robin_and_routing(rt: RtKind) -> E2eResult {
     let mut o = vec![];
     let mut ids = vec![];
     for (i, uds) in [false, true, false, true].into_iter().enumerate() {
-        let c = w.connect(uds, 0).unwrap();
+        let c = w.connect_x(uds, 0);
         obs(&mut o, &format!("connection #{i} is served"), true, w.served(c, POS));
         ids.push((c, uds));
     }
@@ -363,7 +378,7 @@ pub fn pause_resume(rt: RtKind, uds: bool) -> E2eResult {
 pub fn shutdown(rt: RtKind, graceful: bool) -> E2eResult {
     let mut w = World::start(rt, 2, 4, 30, &[("a", true)]);
     let mut o = vec![];
-    let c = w.connect(true, 0).unwrap();
+    let c = w.connect_x(true, 0);
     obs(&mut o, "connection is served", true, w.served(c, POS));
     let stop = w.stop(graceful);
     if graceful {
@@ -385,12 +400,12 @@ pub fn shutdown(rt: RtKind, graceful: bool) -> E2eResult {
 pub fn readiness(rt: RtKind) -> E2eResult {
     let mut w = World::start(rt, 1, 8, 2, &[("a", true)]);
     let mut o = vec![];
-    let c0 = w.connect(true, 0).unwrap();
+    let c0 = w.connect_x(true, 0);
     obs(&mut o, "first connection is served", true, w.served(c0, POS));
     w.set_not_ready(true);
     // the worker re-checks readiness before the next connection
-    let c1 = w.connect(true, 0).unwrap();
-    let c2 = w.connect(true, 0).unwrap();
+    let c1 = w.connect_x(true, 0);
+    let c2 = w.connect_x(true, 0);
     obs(&mut o, "connection is served while the service reports not ready", false, w.served(c1, NEG));
     w.set_not_ready(false);
     obs(&mut o, "first waiting connection is served once the service is ready", true, w.served(c1, POS));
@@ -415,7 +430,7 @@ pub fn worker_fault(rt: RtKind, workers: usize) -> E2eResult {
 fn worker_fault_inner(rt: RtKind, workers: usize) -> E2eResult {
     let mut w = World::start(rt, workers, 4, 2, &[("a", true)]);
     let mut o = vec![];
-    let c0 = w.connect(true, 0).unwrap();
+    let c0 = w.connect_x(true, 0);
     obs(&mut o, "connection before the fault is served", true, w.served(c0, POS));
     w.release(c0);
     let before = w.instances();
@@ -423,7 +438,7 @@ fn worker_fault_inner(rt: RtKind, workers: usize) -> E2eResult {
     // the next connections make a worker poll (one dies), the accept loop discovers it on a later send
     let mut all = true;
     for _ in 0..(2 * workers + 2) {
-        let c = w.connect(true, 0).unwrap();
+        let c = w.connect_x(true, 0);
         let ok = w.served(c, POS) || {
             // the connection that was in the dead worker's queue is lost with it; a closed socket is acceptable for it
             w.closed_by_server(c, Duration::from_millis(10))
@@ -434,12 +449,12 @@ fn worker_fault_inner(rt: RtKind, workers: usize) -> E2eResult {
     obs(&mut o, "connections after the fault are served (or, if they sat in the dead worker's queue, closed)", true, all);
     let t0 = Instant::now();
     while w.instances() <= before && t0.elapsed() < POS {
-        let c = w.connect(true, 0).unwrap();
+        let c = w.connect_x(true, 0);
         let _ = w.served(c, Duration::from_millis(500));
         w.release(c);
     }
     obs(&mut o, "a replacement worker created its service from the factory", true, w.instances() > before);
-    let c = w.connect(true, 0).unwrap();
+    let c = w.connect_x(true, 0);
     obs(&mut o, "service continues after the replacement", true, w.served(c, POS));
     w.release(c);
     w.shutdown();
@@ -549,6 +564,15 @@ pub fn signals() -> E2eResult {
 }
 
 pub fn scenarios_for(prop: &str) -> Vec<E2eResult> {
+    let mut v = scenarios_for_inner(prop);
+    let failures: Vec<String> = std::mem::take(&mut *CONNECT_FAILURES.lock().unwrap());
+    if let Some(last) = v.last_mut() {
+        last.observations.push((format!("every client connect succeeded while the server was running{}", if failures.is_empty() { String::new() } else { format!(" (failed: {:?})", failures) }), true, failures.is_empty()));
+    }
+    v
+}
+
+fn scenarios_for_inner(prop: &str) -> Vec<E2eResult> {
     match prop {
         "C01" => vec![round_robin_and_routing(RtKind::Tokio)],
         "C02" => vec![backpressure(RtKind::Tokio, 2, true)],
